@@ -128,6 +128,19 @@ Proof.
   intros H. inversion H as [|? ? Hn _]. apply Hn. left. reflexivity.
 Qed.
 
+(* completeness also rests on doPatternGlob going on after a match it cannot
+   stream: if it gave up at the first such match (a socket next to the logs),
+   the readable files sorting after it would never be tailed *)
+Theorem C18_complete_needs_every_match_refuted :
+  exists t p i,
+    let s := poll_stop U4 [0] all none (mkState t l0 [] (fun _ => None) 0%Z 0 0 []) in
+    tree s p = Some (File true i) /\ all 0 p = true /\ none p = false /\ reg s p = None /\
+    reg (poll U4 [0] all none true (mkState t l0 [] (fun _ => None) 0%Z 0 0 [])) p <> None.
+Proof.
+  exists (fun p => if N.eqb p 0 then Some (Sock 1) else if N.eqb p 1 then Some (File true 2) else None), 1, 2.
+  vm_compute. repeat split. discriminate.
+Qed.
+
 (* non-vacuity: a reachable state with two tailed files matched by
    overlapping patterns, one pending line, a rename and a directory *)
 Example C18_reachable_nontrivial :
@@ -152,3 +165,4 @@ Print Assumptions C18_rename_free_histories_reachable_nr.
 Print Assumptions C18_never_dir_old_refuted.
 Print Assumptions C18_complete_after_poll_old_refuted.
 Print Assumptions C18_single_stream_without_lookup_refuted.
+Print Assumptions C18_complete_needs_every_match_refuted.
